@@ -94,7 +94,22 @@ def run(tier):
                                want=lambda h: any(o["op"] in ("xclear", "xset") for o in h["ops"]))
     hs += gx
     m = run_histories(chk, hs, {"C04"}, label="c04")
+    # the hints in force belong to the block they were given to: 8 threads, each with its own exporter under its own mask
+    # (the section and RR masks of the family, records that set every member), filling blocks at the same time
+    from checks.c20 import run_threads
+    th = []
+    for k, msk in enumerate([f for f in fam if f[0] != ALLQ or f[2] != 3][:: (2 if tier == "quick" else 1)][: (64 if tier == "quick" else 2000)]):
+        h = history_for(rng, msk)
+        recs = [o for o in h["ops"] if o["op"] == "qr"]
+        h["ops"] = (recs * 6) + [{"op": "wb"}]
+        th.append(h)
+    th += [history_for(rng, (ALLQ, ALLS, 3, 3)) for _ in range(len(th) // 2)]
+    rng.shuffle(th)
+    for h in th[len(th) // 2:]:
+        h["ops"] = [o for o in h["ops"] if o["op"] == "qr"] * 6 + [{"op": "wb"}]
+    m2 = run_threads(chk, "plain", 8, 2, th, "c04t", relevant={"C04"})
     chk.distinct = len(set(fam))
+    chk.extra["threaded_executions"] = m2["execs"]
     chk.extra["masks"] = len(fam)
     return chk.finish()
 
